@@ -2,6 +2,29 @@
 //
 // Data-structure invariant + abstract view: every operation `requires wf` on its inputs and
 // `ensures wf && view == op(views)`; induction over the operation history then gives C08 for histories of any length.
+// `MontyParams::wf` states that every field equals its definition; `lemma_params_unique` shows that wf determines
+// every field from the modulus, i.e. any two constructors that establish wf return identical parameter sets.
+//
+// FINDING (C08, modulus m == 1): `MontyParams::new_vartime` (and `new`, same expression) compute
+// `one = ((R - 1) mod m) + 1`, which is R mod m for every odd m >= 3 (R is a unit mod m, lemma_one_def) but is 1,
+// not R mod 1 == 0, for m == 1. So for the modulus 1 `params.one`, `MontyForm::one(params).as_montgomery()` and
+// `pow_bounded_exp(_, 0)` are 1 >= m: not canonical, and `one != zero` although both represent 0 in Z/1Z
+// (checked concretely: U128, modulus 1 -> as_montgomery() == 1, retrieve() == 0, one == zero is false).
+// The contract of `new_vartime` therefore gives `wf` only for m != 1 and states `one == 1` for m == 1; all other
+// fields (`wf_rest`) equal their definitions for every odd m.
+//
+// NOT COVERED here:
+//  * `MontyParams::new` (constant-time constructor). Its generic header
+//    `where Uint<LIMBS>: Concat<Output = Uint<WIDE_LIMBS>>, Uint<WIDE_LIMBS>: Split<Output = Uint<LIMBS>>`
+//    type-checks in Verus once the four traits are declared (probed), but (1) tools/gen.py cannot extract trait
+//    declarations, and (2) its callees `Uint::concat` / `Uint::square` / `Uint::split` are generic inherent fns that
+//    collide (E0592) with the per-size hand-written `impl Uint<8|16|32|64> { fn concat }` stubs of l3_karatsuba.
+//    `new` computes `one`, `mod_neg_inv`, `r3` by the same expressions as `new_vartime`; it differs in `rem`,
+//    `square().rem(wide).split()`, `inv_mod2k_vartime`, `leading_zeros` + `from_u32_lt/select_u32`.
+//  * `as_montgomery_mut` (hands out `&mut` to the representative: the invariant is the caller's business),
+//    trait impls / operators / `DynMontyMultiplier` / `ConditionallySelectable` / `From<&ConstMontyForm>` (Engine B).
+//  * `from_montgomery` is an unchecked constructor: the result is wf only if the argument is < m (stated as such).
+// ASSUMED: `Odd::as_nz_ref` (`unsafe` pointer cast `&T -> &NonZero<T>`, NonZero is repr(transparent)): `ret.0 == self.0`.
 use vstd::prelude::*;
 use vstd::arithmetic::power::*;
 use vstd::arithmetic::power2::*;
@@ -89,7 +112,8 @@ impl<const LIMBS: usize> MontyForm<LIMBS> {
 pub proof fn lemma_params_unique<const LIMBS: usize>(a: MontyParams<LIMBS>, b: MontyParams<LIMBS>)
     requires a.wf(), b.wf(), a.modulus.0.v() == b.modulus.0.v()
     ensures a.modulus.0.limbs@ =~= b.modulus.0.limbs@, a.one.limbs@ =~= b.one.limbs@, a.r2.limbs@ =~= b.r2.limbs@, a.r3.limbs@ =~= b.r3.limbs@,
-        a.mod_neg_inv == b.mod_neg_inv, a.mod_leading_zeros == b.mod_leading_zeros
+        a.mod_neg_inv == b.mod_neg_inv, a.mod_leading_zeros == b.mod_leading_zeros,
+        a == b
 {
     let n = LIMBS as nat;
     lemma_val_inj(a.modulus.0.limbs@, b.modulus.0.limbs@, n);
@@ -102,6 +126,11 @@ pub proof fn lemma_params_unique<const LIMBS: usize>(a: MontyParams<LIMBS>, b: M
     assert(a.r3.limbs@ =~= b.r3.limbs@);
     lemma_neg_inv_unique(a.mod_neg_inv.0 as int, b.mod_neg_inv.0 as int, a.modulus.0.limbs@[0].0 as int);
     lemma_clamped_lz_unique(a.modulus.0.v(), (64 * LIMBS) as nat, a.mod_leading_zeros as int, b.mod_leading_zeros as int);
+    assert(a.modulus.0.limbs =~= b.modulus.0.limbs);
+    assert(a.one.limbs =~= b.one.limbs);
+    assert(a.r2.limbs =~= b.r2.limbs);
+    assert(a.r3.limbs =~= b.r3.limbs);
+    assert(a.mod_neg_inv.0 == b.mod_neg_inv.0);
 }
 
 /// k * m0 == -1 (mod B) has at most one solution k in [0, B)
@@ -277,17 +306,7 @@ pub proof fn lemma_repr_half(r: int, a: int, m: int, n: nat)
 
 //@@ subst \b(Self|Uint)::(ZERO|ONE|MAX|BITS|LOG2_BITS)\b(?!\() => \1::\2()
 //@@ subst \bUint::<(\w+)>::(ZERO|ONE|MAX|BITS)\b(?!\() => Uint::<\1>::\2()
-//@@ fn src/odd.rs | impl<T> Odd<T> | as_ref | body | props C08 C11
-impl<T> Odd<T> {
-pub const fn as_ref(&self) -> (ret__: &T)
-//@+
-    ensures *ret__ == self.0
-//@-
-{
-        &self.0
-    }
-}
-//@@ end
+// `Odd::as_ref` (src/odd.rs) lives in l4_invmod (shared with gcd_vartime): contract `ensures *ret__ == self.0`
 //@@ fn src/odd.rs | impl<T> Odd<T> | as_nz_ref | stub | props C08 C11
 impl<T> Odd<T> {
 #[verifier::external_body]
@@ -307,7 +326,7 @@ pub const fn new_vartime(modulus: Odd<Uint<LIMBS>>) -> (ret__: Self)
     requires LIMBS < 0x400_0000, modulus.0.v() % 2 == 1
     ensures ret__.modulus == modulus, ret__.wf_rest(),
         modulus.0.v() != 1 ==> ret__.wf(),
-        // the code yields one == 1 (not R mod m == 0) for the modulus 1: see finding in the unit header
+        // the code yields one == 1 (not R mod m == 0) for the modulus 1: see FINDING in the unit header
         modulus.0.v() == 1 ==> ret__.one.v() == 1
 //@-
 {
